@@ -270,7 +270,7 @@ def capture_nodes(f):
     for n in g.nodes:
         if n.ast is None or n.kind != 'stmt':
             continue
-        has_get = any(stores.store_call(k, f) == ('_before', 'getvalue') for k in node_calls(n))
+        has_get = any(stores.store_call(k, f) in (('_before', 'getvalue'), ('_before', 'read')) for k in node_calls(n))          # (how MUCH of it is handed out is D6's question)
         if has_get:
             if stmt_assigns_attr(n.ast, 'before') is not None:
                 caps.add(n)
